@@ -129,3 +129,25 @@ func loadRun(L *LState, src string, nret int) error {
 	L.Push(fn)
 	return L.PCall(0, nret, nil)
 }
+
+// numPool: non-integral, huge and boundary numbers that the 32-bit integer class does not cover.
+var numPool = []float64{0.5, 9223372036854775808, -1.5, 4294967296, 2.5, 1e300, -1e300, 9007199254740992, -9223372036854775808, 5e-324}
+
+// symNum returns a symbolic number from two classes: any 32-bit integer value (exact in float64,
+// decided by bit-vector reasoning) or one of numPool; with full=true also an arbitrary non-NaN
+// float64 (floating-point solver reasoning: slow, use sparingly).
+func symNum(name string, full bool) float64 {
+	n := 2
+	if full {
+		n = 3
+	}
+	switch VChoice(n) {
+	case 0:
+		return float64(VI32(name))
+	case 1:
+		return numPool[VChoice(VParam("npool", len(numPool)))]
+	}
+	f := VFloat(name)
+	VAssume(f == f)
+	return f
+}
